@@ -27,10 +27,11 @@ emitted (Model.v `site`); C12/Bridge.v proves `forallb site_ok sites = true` aga
   task_no_shared_write  F never assigns `self.<attr>` and has no global / nonlocal statement
   draws_before_dispatch every use of a generator name of the enclosing function lies in a statement
                         before the one holding the Parallel call
-  njobs_none_ok         nowhere in the file is `n_jobs` / `self.n_jobs` used as a VALUE other than
-                        handed on (keyword / argument of a call such as Parallel(n_jobs=..) or
-                        check_n_jobs(..), right-hand side of an assignment): no `self.n_jobs > 1`
-                        style comparison or arithmetic that fails for n_jobs=None
+  njobs_none_ok         nowhere in the file is `n_jobs` / `self.n_jobs` used in a way that fails for
+                        None: it is only handed on as the keyword `n_jobs=` of a call
+                        (Parallel(n_jobs=..), a constructor), given to check_n_jobs(..), assigned,
+                        or compared with ==, !=, is, is not - no `self.n_jobs > 1` style ordering
+                        comparison, arithmetic, or other call argument
 
 Limits (stated in TRUSTED): the facts are about F's own body, not about what F calls; `random_state`
 is assumed to hold an int seed.
@@ -272,20 +273,27 @@ def _order_destroyed(scope, is_target):
     return False
 
 
+NONE_SAFE_CMP = (ast.Eq, ast.NotEq, ast.Is, ast.IsNot)
+
+
 def _njobs_none_ok(mod, par):
-    """every Load of `n_jobs` / `<obj>.n_jobs` is only handed on (see module docstring)"""
+    """every Load of `n_jobs` / `<obj>.n_jobs` is None-safe (see module docstring)"""
     for n in ast.walk(mod):
         is_nj = (isinstance(n, ast.Name) and n.id == "n_jobs") or (
             isinstance(n, ast.Attribute) and n.attr == "n_jobs")
         if not is_nj or not isinstance(n.ctx, ast.Load):
             continue
         p = par.get(n)
-        if isinstance(p, ast.keyword):
-            continue
-        if isinstance(p, ast.Call) and n in p.args:
+        if isinstance(p, ast.keyword) and p.arg == "n_jobs":
+            continue                      # Parallel(n_jobs=..), SFA(n_jobs=..), super().__init__(..)
+        if isinstance(p, ast.Call) and n in p.args and (
+                (isinstance(p.func, ast.Name) and p.func.id == "check_n_jobs")
+                or (isinstance(p.func, ast.Attribute) and p.func.attr == "check_n_jobs")):
             continue
         if isinstance(p, ast.Assign) and p.value is n:
-            continue
+            continue                      # self.n_jobs = n_jobs
+        if isinstance(p, ast.Compare) and all(isinstance(o, NONE_SAFE_CMP) for o in p.ops):
+            continue                      # n_jobs == 1 / is None: fine for None
         return False
     return True
 
